@@ -33,13 +33,15 @@ structure F0 (s s' : State) : Prop where
   handles : s'.handles = s.handles
   obs : ∀ o : Nat, (s'.observers[o]?).map obsK = (s.observers[o]?).map obsK
   reg : RegScoped s → RegScoped s'
+  /-- events are only ever added -/
+  log : ∃ evs, s'.log = evs ++ s.log
 
 structure F0V (s s' : State) : Prop extends F0 s s' where
   valid : ∀ i, i < s.nodes.size → (s'.nodeD i).valid = (s.nodeD i).valid
   newValid : ∀ i, s.nodes.size ≤ i → i < s'.nodes.size → (s'.nodeD i).valid = true
 
 theorem F0.refl (s : State) : F0 s s :=
-  ⟨Nat.le_refl _, fun _ _ => rfl, rfl, rfl, rfl, fun _ => rfl, fun h => h⟩
+  ⟨Nat.le_refl _, fun _ _ => rfl, rfl, rfl, rfl, fun _ => rfl, fun h => h, [], rfl⟩
 
 theorem F0.trans {a b c : State} (h1 : F0 a b) (h2 : F0 b c) : F0 a c where
   nodesLe := Nat.le_trans h1.nodesLe h2.nodesLe
@@ -49,6 +51,10 @@ theorem F0.trans {a b c : State} (h1 : F0 a b) (h2 : F0 b c) : F0 a c where
   handles := h2.handles.trans h1.handles
   obs o := (h2.obs o).trans (h1.obs o)
   reg h := h2.reg (h1.reg h)
+  log := by
+    obtain ⟨e1, q1⟩ := h1.log
+    obtain ⟨e2, q2⟩ := h2.log
+    exact ⟨e2 ++ e1, by rw [q2, q1, List.append_assoc]⟩
 
 theorem F0V.refl (s : State) : F0V s s :=
   ⟨F0.refl s, fun _ _ => rfl, fun i h1 h2 => absurd h2 (by omega)⟩
@@ -74,7 +80,7 @@ theorem RegScoped.of_eq {s s' : State} (h1 : s'.nodes = s.nodes) (h2 : s'.binds 
 /-- a step that leaves `nodes`, `memos`, `top`, `handles`, `observers`, `binds` alone -/
 theorem F0V.of_eq {s s' : State} (h1 : s'.nodes = s.nodes) (h2 : s'.memos = s.memos)
     (h3 : s'.top = s.top) (h4 : s'.handles = s.handles) (h5 : s'.observers = s.observers)
-    (h6 : s'.binds = s.binds) : F0V s s' where
+    (h6 : s'.binds = s.binds) (h7 : s'.log = s.log) : F0V s s' where
   nodesLe := by rw [h1]; exact Nat.le_refl _
   core i _ := by simp only [State.nodeD, h1]
   memos := h2
@@ -82,6 +88,7 @@ theorem F0V.of_eq {s s' : State} (h1 : s'.nodes = s.nodes) (h2 : s'.memos = s.me
   handles := h4
   obs o := by rw [h5]
   reg := RegScoped.of_eq h1 h6
+  log := ⟨[], by rw [h7]; rfl⟩
   valid i _ := by simp only [State.nodeD, h1]
   newValid i hi1 hi2 := absurd hi2 (by rw [h1]; omega)
 
@@ -108,6 +115,7 @@ theorem F0.modNode (s : State) (n : Nat) (f : Node → Node) (hf : ∀ x, nodeK 
   top := rfl
   handles := rfl
   obs _ := rfl
+  log := ⟨[], rfl⟩
   reg h := by
     intro b br hb r hr
     have := h b br hb r hr
@@ -144,6 +152,7 @@ theorem F0V.modObs (s : State) (o : Nat) (f : ObsRec → ObsRec) (hf : ∀ x, ob
     · cases s.observers[o']? <;> simp [hf]
     · rfl
   reg h := h
+  log := ⟨[], rfl⟩
   valid _ _ := rfl
   newValid i hi1 hi2 := absurd hi2 (by show ¬ i < s.nodes.size; omega)
 
@@ -156,6 +165,7 @@ theorem F0V.modBind (s : State) (b : Nat) (f : BindRec → BindRec)
   top := rfl
   handles := rfl
   obs _ := rfl
+  log := ⟨[], rfl⟩
   reg h := by
     intro b' br hb r hr
     simp only [Array.getElem?_modify] at hb
@@ -179,6 +189,7 @@ theorem F0V.pushBind (s : State) (br : BindRec) (hbr : br.allNodesCreatedOnRhs =
   top := rfl
   handles := rfl
   obs _ := rfl
+  log := ⟨[], rfl⟩
   reg h := by
     intro b' br' hb r hr
     simp only [Array.getElem?_push] at hb
@@ -203,6 +214,7 @@ theorem F0V.pushTop (s : State) (nd : Node) (hv : nd.valid = true) :
   top := rfl
   handles := rfl
   obs _ := rfl
+  log := ⟨[], rfl⟩
   reg h := by
     intro b br hb r hr
     have := h b br hb r hr
@@ -227,6 +239,7 @@ theorem F0V.pushScoped (s : State) (nd : Node) (b : Nat) (hv : nd.valid = true)
   top := rfl
   handles := rfl
   obs _ := rfl
+  log := ⟨[], rfl⟩
   reg h := by
     intro b' br hb r hr
     show r < (s.nodes.push nd).size ∧ (({ s with nodes := s.nodes.push nd } : State).nodeD r).createdIn = _
@@ -308,7 +321,7 @@ variable {R : State → State → Prop} [FLocal R]
 macro_rules
   | `(tactic| mleaf) =>
     `(tactic| ((with_reducible apply Pres.modify); intro _;
-               exact FLocal.of_frame _ _ (F0V.of_eq rfl rfl rfl rfl rfl rfl)))
+               exact FLocal.of_frame _ _ (F0V.of_eq rfl rfl rfl rfl rfl rfl rfl)))
 
 theorem PresF.modNode (n f) (hf : ∀ x, nodeK (f x) = nodeK x ∧ (f x).valid = x.valid) :
     Pres R (modNode n f) := by
@@ -331,7 +344,19 @@ theorem PresF.modExpert (n f) : Pres R (modExpert n f) := by unfold Engine.modEx
 memo_leaf PresF.modExpert
 theorem PresF.bumpCounter (f) : Pres R (bumpCounter f) := by unfold Engine.bumpCounter; mpres
 memo_leaf PresF.bumpCounter
-theorem PresF.logEv (e : Event) : Pres R (logEv e) := by unfold Engine.logEv; mpres
+theorem F0V.logEv (e : Event) (s : State) : F0V s { s with log := e :: s.log } where
+  nodesLe := Nat.le_refl _
+  core _ _ := rfl
+  memos := rfl
+  top := rfl
+  handles := rfl
+  obs _ := rfl
+  reg h := h
+  log := ⟨[e], rfl⟩
+  valid _ _ := rfl
+  newValid i hi1 hi2 := absurd hi2 (by show ¬ i < s.nodes.size; omega)
+theorem PresF.logEv (e : Event) : Pres R (logEv e) := by
+  unfold Engine.logEv; exact Pres.modify fun s => FLocal.of_frame _ _ (F0V.logEv e s)
 memo_leaf PresF.logEv
 theorem PresF.tick : Pres R tick := by unfold Engine.tick; mpres
 memo_leaf PresF.tick
@@ -488,14 +513,14 @@ theorem PresF.createNode (k sc c) : Pres R (createNode k sc c) := by
     cases hrun
     exact PreOrd.trans
       (F0V.of_eq (s' := { s with counters := { s.counters with created := s.counters.created + 1 } })
-        rfl rfl rfl rfl rfl rfl)
+        rfl rfl rfl rfl rfl rfl rfl)
       (F0V.pushTop { s with counters := { s.counters with created := s.counters.created + 1 } } _ rfl)
   | bind b =>
     simp only [Engine.bumpCounter, Engine.modBind, run_bind, run_get, run_modify, run_pure] at hrun
     cases hrun
     exact PreOrd.trans
       (F0V.of_eq (s' := { s with counters := { s.counters with created := s.counters.created + 1 } })
-        rfl rfl rfl rfl rfl rfl)
+        rfl rfl rfl rfl rfl rfl rfl)
       (F0V.pushScoped { s with counters := { s.counters with created := s.counters.created + 1 } } _ b rfl rfl)
 memo_leaf PresF.createNode
 theorem PresF.createVar (v sc) : Pres R (createVar v sc) := by unfold Engine.createVar; mpres
